@@ -576,7 +576,7 @@ theorem readModule_writeModule (m : Module) (h : fragCore m = true) :
   obtain ⟨s3, e3, hM3, hj3⟩ := funcsWith_spec blockJson_spec hGnd m.funcs gdone [] s2 hM
     (by intro x hx; rw [hnames]; rcases (hgd x).1 hx with h' | h' <;> simp [h'])
     (by intro f hf; rw [hnames]; simp only [List.mem_append, List.mem_map]; exact Or.inr ⟨f, hf, rfl⟩)
-    hnd_f (by intro g hg; simp at hg) hfuncs
+    hnd_f (by intro g hg; simp at hg) (fun f hf => funcFacts_of_core (hfuncs f hf))
   have hpend : s3.pending = [] := by
     apply pending_nil_of_no_entry
     intro x t hx
